@@ -8,7 +8,7 @@
 From ClapModel Require Import Base.Bytes Base.Machine Base.Utf8 Lex.OsStrExtModel Lex.OsStrExtProofs.
 From ClapModel Require Import Parse.Cmd Parse.Build Parse.Valid Parse.Matcher Parse.Errors Parse.Validator Parse.Parser.
 From ClapModel Require Import ParseProofs.Actions ParseProofs.ActionsLoop ParseProofs.Spelling ParseProofs.Unparse
-                              ParseProofs.UnparseProofs ParseProofs.UnparseLift ParseProofs.UnparseX.
+                              ParseProofs.UnparseProofs ParseProofs.UnparseLift ParseProofs.UnparseX ParseProofs.Escape ParseProofs.LoopStep.
 From Coq Require Import ZArith Lia List Bool.
 From RecordUpdate Require Import RecordSet.
 Import RecordSetNotations.
@@ -21,15 +21,14 @@ Proof.
   unfold conv_arg, convx_arg. intros H.
   apply andb_prop in H. destruct H as [H H6]. apply andb_prop in H. destruct H as [H H5].
   apply andb_prop in H. destruct H as [H _]. apply andb_prop in H. destruct H as [H _].
-  apply andb_prop in H. destruct H as [H1 H2].
-  rewrite H5, H6, H1, H2. cbn [andb]. apply orb_true_r.
+  rewrite H5, H6. cbn [andb negb]. apply orb_true_r.
 Qed.
 Lemma conv_convx c : conv c = true -> convx c = true.
 Proof.
   unfold conv, convx. intros H.
   apply andb_prop in H. destruct H as [H H5]. apply andb_prop in H. destruct H as [H H4].
   apply andb_prop in H. destruct H as [H H3]. apply andb_prop in H. destruct H as [H1 H2].
-  rewrite H1, H2, H4, H5. cbn [andb]. rewrite !andb_true_r.
+  rewrite H1, H2. cbn [andb negb].
   apply forallb_forall. intros a Ha. rewrite forallb_forall in H3. apply conv_arg_convx_arg. apply H3. exact Ha.
 Qed.
 
@@ -37,30 +36,39 @@ Section SimX.
 Variable c : cmd.
 Hypothesis Hx : convx c = true.
 
-Lemma convx_parts : assert_app c = true /\ is_set s_sub_precedence c = false /\ forallb convx_arg (c_args c) = true
-  /\ is_set s_allow_missing_pos c = false /\ low_index_multiple c = false.
+Lemma convx_parts : assert_app c = true /\ is_set s_sub_precedence c = false /\ forallb convx_arg (c_args c) = true.
 Proof.
   unfold convx in Hx.
-  apply andb_prop in Hx. destruct Hx as [H H5]. apply andb_prop in H. destruct H as [H H4].
-  apply andb_prop in H. destruct H as [H H3]. apply andb_prop in H. destruct H as [H1 H2].
-  split; [exact H1|]. split; [destruct (is_set s_sub_precedence c); [discriminate|reflexivity]|].
-  split; [exact H3|]. split; [destruct (is_set s_allow_missing_pos c); [discriminate|reflexivity]|].
-  destruct (low_index_multiple c); [discriminate|reflexivity].
+  apply andb_prop in Hx. destruct Hx as [H H3]. apply andb_prop in H. destruct H as [H1 H2].
+  split; [exact H1|]. split; [destruct (is_set s_sub_precedence c); [discriminate|reflexivity]|exact H3].
 Qed.
 Lemma convx_app : assert_app c = true.
 Proof. apply convx_parts. Qed.
 Lemma convx_sp : is_set s_sub_precedence c = false.
 Proof. apply convx_parts. Qed.
-Lemma convx_args a : In a (c_args c) ->
-  a_last a = false /\ a_tva a = false /\ (a_index a <> None -> a_hyphen a = false /\ a_negnum a = false).
+Lemma convx_args a : In a (c_args c) -> a_index a = None -> a_last a = false /\ a_tva a = false.
 Proof.
-  intros Ha. destruct convx_parts as [_ [_ [H _]]].
+  intros Ha Hi. destruct convx_parts as [_ [_ H]].
   rewrite forallb_forall in H. specialize (H a Ha). unfold convx_arg in H.
-  apply andb_prop in H. destruct H as [H H3]. apply andb_prop in H. destruct H as [H1 H2].
-  destruct (a_last a); [discriminate|]. destruct (a_tva a); [discriminate|]. split; [reflexivity|]. split; [reflexivity|].
-  intros Hi. destruct (a_index a); [|congruence]. cbn [is_some negb orb] in H3.
-  apply andb_prop in H3. destruct H3 as [H3 H4].
-  destruct (a_hyphen a); [discriminate|]. destruct (a_negnum a); [discriminate|]. split; reflexivity.
+  rewrite Hi in H. cbn [is_some orb] in H. apply andb_prop in H. destruct H as [H1 H2].
+  destruct (a_last a); [discriminate|]. destruct (a_tva a); [discriminate|]. split; reflexivity.
+Qed.
+(** where the look-ahead is off, the counter correction of the delivery phase is the identity before [--] *)
+Definition lookahead_off (pos : N) : Prop := forall vaf (rest : list bytes) pst, pc_part c rest (mkL pst pos vaf false) = ROk pos.
+Lemma lookahead_off_of pos : lookahead_at c pos = false -> lookahead_off pos.
+Proof.
+  intros H vaf rest pst. unfold pc_part. cbn [l_pos l_trailing l_vaf]. cbv zeta.
+  unfold lookahead_at, low_index_mults_any, is_terminated in H.
+  assert (E : (((pos + 1 =? positional_count c)
+                && existsb (fun a => a_is_multiple a && negb (positional_count c =? opt_default 0 (a_index a))) (positionals c)
+                && match last (map Some (positionals c)) None with Some p => negb (a_last p) | None => false end
+                || is_set s_allow_missing_pos c && (pos + 1 =? positional_count c) && negb false)
+               && negb match get_pos c pos with Some a => is_some (a_term a) | None => false end) = false).
+  { destruct (pos + 1 =? positional_count c); destruct (existsb _ (positionals c));
+      destruct (match last (map Some (positionals c)) None with Some p => negb (a_last p) | None => false end);
+      destruct (is_set s_allow_missing_pos c);
+      destruct (match get_pos c pos with Some a => is_some (a_term a) | None => false end); cbn in *; congruence. }
+  rewrite E. reflexivity.
 Qed.
 
 Lemma find_arg_self_x a : In a (c_args c) -> find_arg c (a_id a) = Some a.
@@ -310,23 +318,17 @@ Proof.
 Qed.
 
 (** ** short clusters *)
-Lemma psa_start_x (r : bytes) pst pos vaf st : pst_okx pst -> fs_skip st = 0 ->
+Lemma psa_start_x (r : bytes) pst pos vaf st : pst_okx pst -> fs_skip st = 0 -> cluster_clear c pos r = true ->
   parse_short_arg c r pst pos vaf st = short_loop c (S (length r)) r PRNoArg vaf st.
 Proof.
-  intros Hp Hskip. unfold parse_short_arg.
+  intros Hp Hskip Hcc. unfold parse_short_arg.
+  unfold cluster_clear, pos_negnum, pos_hyphen in Hcc. apply andb_prop in Hcc. destruct Hcc as [Hc1 Hc2].
+  apply negb_true_iff in Hc1. apply negb_true_iff in Hc2.
   destruct (state_arg_okx pst Hp) as [sa [Es Hsa]]. rewrite Es. cbn [rbind].
   assert (E1 : match sa with Some a => a_hyphen a || (a_negnum a && sf_is_negative_number r) | None => false end = false).
   { destruct sa as [a0|]; [|reflexivity]. destruct Hsa as [H1 H2]. rewrite H1, H2. reflexivity. }
   rewrite E1.
-  assert (PF : forall a0, get_pos c pos = Some a0 -> a_hyphen a0 = false /\ a_negnum a0 = false).
-  { intros a0 G. destruct (convx_args a0 (get_pos_in c _ _ G)) as [_ [_ H]]. apply H.
-    rewrite (get_pos_index c _ _ G). discriminate. }
-  assert (E2 : match get_pos c pos with Some a => a_negnum a | None => false end = false).
-  { destruct (get_pos c pos) as [a0|] eqn:G; [|reflexivity]. apply (PF a0 eq_refl). }
-  rewrite E2. cbn [andb].
-  assert (E3 : match get_pos c pos with Some a => a_hyphen a && negb (a_last a) | None => false end = false).
-  { destruct (get_pos c pos) as [a0|] eqn:G; [|reflexivity]. destruct (PF a0 eq_refl) as [H _]. rewrite H. reflexivity. }
-  rewrite E3. cbn [andb].
+  rewrite Hc1, Hc2.
   rewrite Hskip. rewrite N.min_0_l. cbn [N.to_nat sf_advance_by expect rbind].
   assert (Est : st <| fs_skip := 0 |> = st) by (destruct st; cbn in Hskip; subst; reflexivity).
   rewrite Est. reflexivity.
@@ -368,9 +370,10 @@ Qed.
 Lemma psa_cluster_x fl t pst pos vaf st :
   pst_okx pst -> fs_skip st = 0 -> forallb (cl_flag c) fl = true -> wfx_tail c t = true ->
   (is_nil fl && match t with TNone => true | _ => false end) = false ->
+  cluster_clear c pos (enc_shorts fl ++ tail_bytes t) = true ->
   parse_short_arg c (enc_shorts fl ++ tail_bytes t) pst pos vaf st = (do st' <- flags_step c fl st; tail_res c t st').
 Proof.
-  intros Hp Hskip Hfl Hw Hne. rewrite (psa_start_x _ pst pos vaf st Hp Hskip).
+  intros Hp Hskip Hfl Hw Hne Hcc. rewrite (psa_start_x _ pst pos vaf st Hp Hskip Hcc).
   rewrite (short_loop_flags c fl (tail_bytes t) _ PRNoArg vaf st Hfl) by lia.
   destruct (flags_step c fl st) as [st'|e s|n]; cbn [rbind]; try reflexivity.
   apply short_loop_tail_x; [exact Hw|]. intros ->. destruct fl; [discriminate|]. split; reflexivity.
@@ -417,39 +420,60 @@ Lemma loop_cluster_x fl t (rest : list bytes) pst pos vaf st :
   pst_okx pst -> fs_skip st = 0 -> nosub c (DASH :: enc_shorts fl ++ tail_bytes t) = true ->
   forallb (cl_flag c) fl = true -> wfx_tail c t = true ->
   (is_nil fl && match t with TNone => true | _ => false end) = false ->
+  cluster_clear c pos (enc_shorts fl ++ tail_bytes t) = true ->
   parse_loop c (render_item (ItCluster fl t) ++ rest) (mkL pst pos vaf false) st =
   (do st1 <- apply_item c pos (ItCluster fl t) st; parse_loop c rest (mkL (item_pst c pos (ItCluster fl t)) pos true false) st1).
 Proof.
-  intros Hp Hskip Hn Hfl Hw Hne. rewrite render_cluster. cbn [app].
+  intros Hp Hskip Hn Hfl Hw Hne Hcc. rewrite render_cluster. cbn [app].
   destruct (cluster_head_x fl t Hfl Hw Hne) as [ch [r [Er Hd]]].
   destruct (lex_short ch r Hd) as [L1 [L2 L3]]. rewrite <- Er in L1, L2, L3.
   etransitivity; [exact (loop_short_tok c _ _ (tail_vals t ++ rest) pst pos vaf st _ Hn L1 L2 L3
-                           (psa_cluster_x fl t pst pos vaf st Hp Hskip Hfl Hw Hne) (cluster_done c fl t st))|].
+                           (psa_cluster_x fl t pst pos vaf st Hp Hskip Hfl Hw Hne Hcc) (cluster_done c fl t st))|].
   cbn [apply_item]. destruct (flags_step c fl st) as [st'|e s|n]; cbn [rbind]; try reflexivity.
   rewrite (tail_step_values_x t st' rest pos Hw). destruct t; reflexivity.
 Qed.
 
 (** ** positional values *)
-Lemma pos_branch_x (v : bytes) (rest : list bytes) pst pos vaf st a :
-  match pst with PSOpt _ => False | _ => True end ->
-  (match pst with PSValuesDone => nosub c v = true | _ => True end) -> value_ok v = true -> get_pos c pos = Some a ->
-  check_terminator a v = false ->
-  parse_loop c (v :: rest) (mkL pst pos vaf false) st = pos_step_k c a v rest pos st.
+(** a token that passes the classification phase untouched *)
+Lemma phase1_value rec (v : bytes) (rest : list bytes) pst pos vaf st :
+  (match pst with PSValuesDone => nosub c v = true | _ => True end) -> value_ok v = true ->
+  phase1 c rec v rest (mkL pst pos vaf false) st = ROk (None, mkL pst pos vaf false, st).
 Proof.
-  intros Hp Hn Hv Hg Hterm. destruct (value_ok_parts v Hv) as [E1 [E2 E3]].
-  destruct convx_parts as [_ [Hsp [_ [Hamp Hlow]]]].
-  pose proof (get_pos_in c pos a Hg) as Ha.
-  destruct (convx_args a Ha) as [Hlast [Htva _]].
-  unfold low_index_multiple in Hlow.
-  cbn [parse_loop]. cbn [l_trailing l_pst l_vaf l_pos].
+  intros Hn Hv. destruct (value_ok_parts v Hv) as [E1 [E2 E3]]. destruct convx_parts as [_ [Hsp _]].
+  unfold phase1. cbn [l_trailing l_pst l_vaf l_pos].
   assert (Hs : (if is_set s_sub_precedence c || match pst with PSValuesDone => true | _ => false end
                 then possible_subcommand c v vaf else None) = None).
   { rewrite Hsp. cbn [orb]. destruct pst; try reflexivity. apply (nosub_if c v vaf true Hn). }
-  rewrite Hs, E1, E2, E3. cbn [rbind]. cbn [l_trailing l_pst l_vaf l_pos].
-  unfold pos_step_k.
-  destruct pst as [|i|i]; [|contradiction|];
-    rewrite Hlow, Hamp, !andb_false_r; cbn [andb orb rbind]; rewrite Hg, Hlast, Htva; cbn [andb orb];
-    rewrite Hterm; reflexivity.
+  rewrite Hs, E1, E2, E3. reflexivity.
+Qed.
+(** the delivery phase, given what the counter correction answers *)
+Lemma pos_deliver_at (v : bytes) (rest : list bytes) pst pos pc' vaf st a :
+  match pst with PSOpt _ => False | _ => True end -> pc_part c rest (mkL pst pos vaf false) = ROk pc' -> get_pos c pc' = Some a ->
+  check_terminator a v = false -> a_last a = false -> a_tva a = false ->
+  phase2 c (parse_loop c rest) v rest (mkL pst pos vaf false) st = pos_step_k c a v rest pc' st.
+Proof.
+  intros Hp Hpc Hg Hterm Hlast Htva. unfold phase2. cbn [l_trailing l_pst].
+  assert (E : pos_part c (parse_loop c rest) v rest (mkL pst pos vaf false) st = pos_step_k c a v rest pc' st).
+  { unfold pos_part. rewrite Hpc. cbn [rbind]. cbn [l_trailing l_pst l_vaf l_pos].
+    rewrite Hg, Hlast, Htva. cbn [andb orb]. rewrite Hterm. unfold pos_step_k. reflexivity. }
+  destruct pst; [exact E|contradiction|exact E].
+Qed.
+(** ... at a counter where the look-ahead is off *)
+Lemma pos_deliver (v : bytes) (rest : list bytes) pst pos vaf st a :
+  match pst with PSOpt _ => False | _ => True end -> lookahead_off pos -> get_pos c pos = Some a ->
+  check_terminator a v = false -> a_last a = false -> a_tva a = false ->
+  phase2 c (parse_loop c rest) v rest (mkL pst pos vaf false) st = pos_step_k c a v rest pos st.
+Proof. intros Hp Hlow. apply pos_deliver_at; [exact Hp|apply Hlow]. Qed.
+
+Lemma pos_branch_x (v : bytes) (rest : list bytes) pst pos vaf st a :
+  match pst with PSOpt _ => False | _ => True end ->
+  (match pst with PSValuesDone => nosub c v = true | _ => True end) -> value_ok v = true -> get_pos c pos = Some a ->
+  check_terminator a v = false -> a_last a = false -> a_tva a = false -> lookahead_off pos ->
+  parse_loop c (v :: rest) (mkL pst pos vaf false) st = pos_step_k c a v rest pos st.
+Proof.
+  intros Hp Hn Hv Hg Hterm Hlast Htva Hlow. rewrite parse_loop_step.
+  rewrite (phase1_value (parse_loop c rest) v rest pst pos vaf st Hn Hv). cbn [rbind].
+  apply pos_deliver; assumption.
 Qed.
 
 Lemma pos_first_x (v : bytes) (rest : list bytes) pst pos st a : get_pos c pos = Some a ->
@@ -479,48 +503,100 @@ Proof.
 Qed.
 
 Lemma loop_pos_values_x a (rest : list bytes) pos st : get_pos c pos = Some a -> a_multiple_values a = true ->
+  a_last a = false -> a_tva a = false -> lookahead_off pos ->
   forall (vs vs0 : list bytes), forallb value_ok vs = true -> forallb (fun v => negb (check_terminator a v)) vs = true ->
   parse_loop c (vs ++ rest) (mkL (PSPos (a_id a)) pos true false) (set_pending (a_id a) IIndex vs0 st) =
   parse_loop c rest (mkL (PSPos (a_id a)) pos true false) (set_pending (a_id a) IIndex (vs0 ++ vs) st).
 Proof.
-  intros Hg Hm. induction vs as [|v vs IH]; intros vs0 Hv Ht.
+  intros Hg Hm Hlast Htva Hlow. induction vs as [|v vs IH]; intros vs0 Hv Ht.
   - cbn [app]. rewrite app_nil_r. reflexivity.
   - cbn [forallb] in Hv. apply andb_prop in Hv. destruct Hv as [Hv Hvs]. cbn [app].
     cbn [forallb] in Ht. apply andb_prop in Ht. destruct Ht as [Ht Hts].
     assert (Ht' : check_terminator a v = false) by (destruct (check_terminator a v); [discriminate|reflexivity]).
-    rewrite (pos_branch_x v (vs ++ rest) (PSPos (a_id a)) pos true _ a I I Hv Hg Ht').
+    rewrite (pos_branch_x v (vs ++ rest) (PSPos (a_id a)) pos true _ a I I Hv Hg Ht' Hlast Htva Hlow).
     rewrite (pos_more c v (vs ++ rest) pos st a vs0 Hm). rewrite (IH (vs0 ++ [v]) Hvs Hts).
     rewrite <- app_assoc. reflexivity.
 Qed.
 
-Lemma posx_ok_parts pst o (vs : list bytes) : posx_ok pst o vs = true ->
-  pos_ok pst o vs = true /\ exists a, o = Some a /\ forallb (fun v => negb (check_terminator a v)) vs = true.
+Lemma posx_ok_parts pst pos (vs : list bytes) : posx_ok c pst pos vs = true ->
+  exists a, get_pos c pos = Some a /\ (pos_ok pst (Some a) vs = true \/ hyph_single c pst pos vs = true) /\
+    forallb (fun v => negb (check_terminator a v)) vs = true /\ a_last a = false /\ a_tva a = false /\
+    (a_is_multiple a = true -> a_hyphen a = false /\ a_negnum a = false) /\ lookahead_off pos.
 Proof.
-  unfold posx_ok. intros H. apply andb_prop in H. destruct H as [H1 H2]. split; [exact H1|].
-  destruct o as [a|]; [|discriminate]. exists a. split; [reflexivity|exact H2].
+  unfold posx_ok. intros H. apply andb_prop in H. destruct H as [H1 H2].
+  destruct (get_pos c pos) as [a|] eqn:Hg; [|discriminate]. exists a. split; [reflexivity|].
+  apply andb_prop in H2. destruct H2 as [H2 HL]. apply negb_true_iff in HL. apply lookahead_off_of in HL.
+  apply andb_prop in H2. destruct H2 as [H2 H5]. apply andb_prop in H2. destruct H2 as [H2 H4]. apply andb_prop in H2. destruct H2 as [H2 H3].
+  split; [apply orb_prop in H1; exact H1|]. split; [exact H2|].
+  destruct (a_last a); [discriminate|]. destruct (a_tva a); [discriminate|]. split; [reflexivity|]. split; [reflexivity|].
+  split; [|exact HL].
+  intros Hm. rewrite Hm in H5. cbn [negb orb] in H5. apply andb_prop in H5. destruct H5 as [H5 H6].
+  destruct (a_hyphen a); [discriminate|]. destruct (a_negnum a); [discriminate|]. split; reflexivity.
+Qed.
+
+(** a token that looks like a flag, handed to the positional the counter points at ([MaybeHyphenValue]) *)
+Lemma pos_branch_h (v : bytes) (rest : list bytes) pos vaf st a :
+  nosub c v = true -> hyphen_tok c pos v = true -> get_pos c pos = Some a ->
+  lookahead_off pos -> check_terminator a v = false -> a_last a = false -> a_tva a = false ->
+  parse_loop c (v :: rest) (mkL PSValuesDone pos vaf false) st = pos_step_k c a v rest pos st.
+Proof.
+  intros Hn Hh Hg Hlow Hterm Hlast Htva.
+  destruct convx_parts as [_ [Hsp _]].
+  unfold hyphen_tok in Hh. apply andb_prop in Hh. destruct Hh as [He Hh]. apply negb_true_iff in He.
+  rewrite parse_loop_step. unfold phase1. cbn [l_trailing l_pst l_vaf l_pos].
+  assert (Hs : (if is_set s_sub_precedence c || true then possible_subcommand c v vaf else None) = None).
+  { rewrite orb_true_r. apply (nosub_if c v vaf true Hn). }
+  rewrite Hs, He.
+  assert (TAIL : forall vaf1,
+    (do p1 <- ROk (@None (res loop_res), mkL PSValuesDone pos vaf1 false, st);
+     let '(early, ls, st) := p1 in
+     match early with Some r => r | None => phase2 c (parse_loop c rest) v rest ls st end) = pos_step_k c a v rest pos st).
+  { intros vaf1. cbn [rbind]. apply pos_deliver; try assumption. exact I. }
+  destruct (to_long v) as [[[f ok] val]|] eqn:TL.
+  - apply andb_prop in Hh. destruct Hh as [Hh Hu]. apply andb_prop in Hh. destruct Hh as [Hh Hnil]. apply andb_prop in Hh. destruct Hh as [Hph Hok].
+    apply negb_true_iff in Hnil. unfold long_unknown in Hu. apply andb_prop in Hu. destruct Hu as [Hu Hfs]. apply andb_prop in Hu. destruct Hu as [Hgl Hil].
+    assert (PL : parse_long_arg c f ok val PSValuesDone pos vaf st = ROk (st, PRMaybeHyphen, vaf)).
+    { unfold parse_long_arg. cbn [state_arg rbind]. rewrite Hok. cbn [negb]. rewrite Hnil.
+      destruct (get_long c f); [discriminate Hgl|]. destruct (is_set s_infer_long c); [discriminate Hil|].
+      destruct (possible_long_flag_subcommand c f); [discriminate Hfs|].
+      unfold pos_hyphen in Hph. rewrite Hph. reflexivity. }
+    rewrite PL. cbn [rbind fst snd]. unfold after_flag. cbn [l_pst l_pos]. exact (TAIL vaf).
+  - destruct (to_short v) as [r|] eqn:TS; [|discriminate Hh].
+    assert (PS : parse_short_arg c r PSValuesDone pos vaf st = ROk (st, PRMaybeHyphen, vaf)).
+    { unfold parse_short_arg. cbn [state_arg rbind]. unfold pos_negnum, pos_hyphen in Hh.
+      destruct (match get_pos c pos with Some a0 => a_negnum a0 | None => false end && sf_is_negative_number r); [reflexivity|].
+      cbn [orb] in Hh. rewrite Hh. reflexivity. }
+    rewrite PS. cbn [rbind fst snd]. unfold after_flag. cbn [l_pst l_pos]. exact (TAIL vaf).
 Qed.
 
 Lemma loop_pos_x (vs : list bytes) (rest : list bytes) pst pos vaf st :
-  pend_inv c pst st -> forallb (nosub c) (firstn 1 vs) = true -> posx_ok pst (get_pos c pos) vs = true ->
+  pend_inv c pst st -> forallb (nosub c) (firstn 1 vs) = true -> posx_ok c pst pos vs = true ->
   parse_loop c (vs ++ rest) (mkL pst pos vaf false) st =
   (do st1 <- apply_item c pos (ItPos vs) st;
    parse_loop c rest (mkL (item_pst c pos (ItPos vs)) (item_pos c pos (ItPos vs)) true false) st1).
 Proof.
-  intros Hi Hn Hokx. destruct (posx_ok_parts _ _ _ Hokx) as [Hok [a0 [Ea0 Hts]]].
-  destruct (pos_ok_parts _ _ _ Hok) as [a [v [vs' [Hg [-> [Hv [Hm Hp]]]]]]].
-  rewrite Hg in Ea0. inversion Ea0; subst a0.
+  intros Hi Hn Hokx. destruct (posx_ok_parts _ _ _ Hokx) as [a [Hg [Hor [Hts [Hlast [Htva [Hmh Hlow]]]]]]].
   cbn [apply_item item_pst item_pos]. rewrite Hg.
-  cbn [firstn forallb] in Hn. apply andb_prop in Hn. destruct Hn as [Hn _].
-  cbn [forallb] in Hv. apply andb_prop in Hv. destruct Hv as [Hv Hvs]. cbn [app].
-  cbn [forallb] in Hts. apply andb_prop in Hts. destruct Hts as [Ht Hts].
-  assert (Ht' : check_terminator a v = false) by (destruct (check_terminator a v); [discriminate|reflexivity]).
-  rewrite (pos_branch_x v (vs' ++ rest) pst pos vaf st a); [|destruct pst; tauto|destruct pst; tauto|exact Hv|exact Hg|exact Ht'].
-  rewrite (pos_first_x v (vs' ++ rest) pst pos st a Hg); [|destruct pst; tauto|exact Hi].
-  destruct Hm as [Hm| ->].
-  - assert (Hmul : a_is_multiple a = true) by (unfold a_is_multiple; rewrite Hm; reflexivity).
-    rewrite Hmul. unfold sep_step. destruct (resolve_pending c st) as [st1|e s|n]; cbn [rbind]; try reflexivity.
-    rewrite (loop_pos_values_x a rest pos st1 Hg Hm vs' [v] Hvs Hts). reflexivity.
-  - cbn [app]. reflexivity.
+  destruct Hor as [Hok|Hhs].
+  - destruct (pos_ok_parts _ _ _ Hok) as [a0 [v [vs' [Ea0 [-> [Hv [Hm Hp]]]]]]]. inversion Ea0; subst a0.
+    cbn [firstn forallb] in Hn. apply andb_prop in Hn. destruct Hn as [Hn _].
+    cbn [forallb] in Hv. apply andb_prop in Hv. destruct Hv as [Hv Hvs]. cbn [app].
+    cbn [forallb] in Hts. apply andb_prop in Hts. destruct Hts as [Ht Hts].
+    assert (Ht' : check_terminator a v = false) by (destruct (check_terminator a v); [discriminate|reflexivity]).
+    rewrite (pos_branch_x v (vs' ++ rest) pst pos vaf st a); [|destruct pst; tauto|destruct pst; tauto|exact Hv|exact Hg|exact Ht'|exact Hlast|exact Htva|exact Hlow].
+    rewrite (pos_first_x v (vs' ++ rest) pst pos st a Hg); [|destruct pst; tauto|exact Hi].
+    destruct Hm as [Hm| ->].
+    + assert (Hmul : a_is_multiple a = true) by (unfold a_is_multiple; rewrite Hm; reflexivity).
+      rewrite Hmul. unfold sep_step. destruct (resolve_pending c st) as [st1|e s|n]; cbn [rbind]; try reflexivity.
+      rewrite (loop_pos_values_x a rest pos st1 Hg Hm Hlast Htva Hlow vs' [v] Hvs Hts). reflexivity.
+    + cbn [app]. reflexivity.
+  - unfold hyph_single in Hhs. rewrite Hg in Hhs. destruct vs as [|v [|w t]]; try discriminate Hhs.
+    destruct pst; try discriminate Hhs. apply andb_prop in Hhs. destruct Hhs as [Hht Hnm]. apply negb_true_iff in Hnm.
+    cbn [firstn forallb] in Hn. apply andb_prop in Hn. destruct Hn as [Hn _].
+    cbn [forallb] in Hts. apply andb_prop in Hts. destruct Hts as [Ht _].
+    assert (Ht' : check_terminator a v = false) by (destruct (check_terminator a v); [discriminate|reflexivity]).
+    cbn [app]. rewrite (pos_branch_h v rest pos vaf st a Hn Hht Hg Hlow Ht' Hlast Htva).
+    rewrite (pos_first_x v rest PSValuesDone pos st a Hg I Hi). rewrite Hnm. reflexivity.
 Qed.
 
 (** ** one item, then the whole invocation *)
@@ -531,8 +607,9 @@ Lemma wfx_item_parts pst pos it : wfx_item c pst pos it = true ->
   | ItLongEq n v => name_ok n = true /\ is_opt (get_long c n) = true
   | ItLongSep n vs => name_ok n = true /\ sepx_ok (get_long c n) vs = true
   | ItCluster fl t => forallb (cl_flag c) fl = true /\ wfx_tail c t = true /\
-                      (is_nil fl && match t with TNone => true | _ => false end) = false
-  | ItPos vs => forallb (nosub c) (firstn 1 vs) = true /\ posx_ok pst (get_pos c pos) vs = true
+                      (is_nil fl && match t with TNone => true | _ => false end) = false /\
+                      cluster_clear c pos (enc_shorts fl ++ tail_bytes t) = true
+  | ItPos vs => forallb (nosub c) (firstn 1 vs) = true /\ posx_ok c pst pos vs = true
   end.
 Proof.
   unfold wfx_item. intros H. apply andb_prop in H. destruct H as [H1 H2]. split.
@@ -541,8 +618,9 @@ Proof.
     + apply andb_prop in H2. exact H2.
     + apply andb_prop in H2. exact H2.
     + apply andb_prop in H2. exact H2.
-    + apply andb_prop in H2. destruct H2 as [H2 H4]. apply andb_prop in H2. destruct H2 as [H2 H3].
-      split; [exact H2|]. split; [exact H3|]. destruct (is_nil fl && _); [discriminate|reflexivity].
+    + apply andb_prop in H2. destruct H2 as [H2 H5]. apply andb_prop in H2. destruct H2 as [H2 H4]. apply andb_prop in H2. destruct H2 as [H2 H3].
+      split; [exact H2|]. split; [exact H3|]. split; [destruct (is_nil fl && _); [discriminate|reflexivity]|].
+      rewrite render_cluster in H5. cbn [hd tl] in H5. exact H5.
     + split; [exact H1|exact H2].
 Qed.
 
@@ -554,9 +632,9 @@ Proof.
   - destruct t as [|o v|o v|o vs]; try exact I. destruct H2 as [_ [H2 _]]. cbn [wfx_tail] in H2.
     apply andb_prop in H2. destruct H2 as [_ H2]. destruct (sepx_ok_parts _ _ H2) as [a [Hg [_ [_ [_ [_ Hcl]]]]]]. rewrite Hg.
     apply opt_pst_okx; [apply (get_short_in c o a Hg)|exact Hcl].
-  - destruct (get_pos c pos) as [a|] eqn:Hg; [|exact I]. destruct (a_is_multiple a); [|exact I].
-    exists a. split; [apply find_arg_self_x; apply (get_pos_in c pos a Hg)|].
-    destruct (convx_args a (get_pos_in c pos a Hg)) as [_ [_ HH]]. apply HH. rewrite (get_pos_index c pos a Hg). discriminate.
+  - destruct H2 as [_ H2]. destruct (posx_ok_parts _ _ _ H2) as [a [Hg [_ [_ [_ [_ [Hmh _]]]]]]]. rewrite Hg.
+    destruct (a_is_multiple a) eqn:Em; [|exact I].
+    exists a. split; [apply find_arg_self_x; apply (get_pos_in c pos a Hg)|apply Hmh; reflexivity].
 Qed.
 
 Lemma loop_item_x it (rest : list bytes) pst pos vaf st :
@@ -575,7 +653,7 @@ Proof.
   - destruct H2 as [Hk Hf]. destruct (sepx_ok_parts _ _ Hf) as [a [Hg _]].
     cbn [render_item apply_item item_pst item_pos]. rewrite Hg. rewrite Hg in Hf.
     apply loop_long_sep_x; try assumption. apply (Hn _ _ eq_refl).
-  - destruct H2 as [Hfl [Hwt Hne]]. cbn [item_pos]. apply loop_cluster_x; try assumption.
+  - destruct H2 as [Hfl [Hwt [Hne Hcc]]]. cbn [item_pos]. apply loop_cluster_x; try assumption.
     apply (Hn _ _ (render_cluster fl t)).
   - destruct H2 as [Hns Hok]. cbn [render_item]. apply loop_pos_x; assumption.
 Qed.
@@ -602,7 +680,7 @@ Proof.
     apply pend_inv_none. apply (step_pending_none c _ _ _ _ _ H).
   - destruct H2 as [_ Hf]. destruct (sepx_ok_parts _ _ Hf) as [a [Hg _]]. rewrite Hg in H.
     apply (sep_step_inv_x ILong a vs st st' _ (get_long_in c n a Hg) (or_introl (get_long_index c n a Hg)) H).
-  - destruct H2 as [Hfl [Hwt Hne]].
+  - destruct H2 as [Hfl [Hwt [Hne _]]].
     destruct (flags_step c fl st) as [s0|e s|k] eqn:E; cbn [rbind] in H; try discriminate.
     destruct t as [|o v|o v|o vs]; cbn [tail_step wfx_tail] in *.
     + inversion H; subst. apply pend_inv_none. apply (flags_step_pending c fl st st' Hfl); [|exact E].
@@ -614,8 +692,7 @@ Proof.
     + apply andb_prop in Hwt. destruct Hwt as [_ Ho].
       destruct (sepx_ok_parts _ _ Ho) as [a [Hg _]]. rewrite Hg in H.
       apply (sep_step_inv_x IShort a vs s0 st' _ (get_short_in c o a Hg) (or_introl (get_short_index c o a Hg)) H).
-  - destruct H2 as [_ Hokx]. destruct (posx_ok_parts _ _ _ Hokx) as [Hok _].
-    destruct (pos_ok_parts _ _ _ Hok) as [a [v [vs' [Hg _]]]]. rewrite Hg in H.
+  - destruct H2 as [_ Hokx]. destruct (posx_ok_parts _ _ _ Hokx) as [a [Hg _]]. rewrite Hg in H.
     cbn [item_pst]. rewrite Hg. destruct (a_is_multiple a) eqn:Em; [exact I|].
     apply (sep_step_inv_x IIndex a vs st st' _ (get_pos_in c pos a Hg)); [|exact H].
     right. unfold a_is_multiple in Em. destruct (a_multiple_values a); [discriminate|reflexivity].
@@ -712,8 +789,7 @@ Proof.
     + apply andb_prop in Hwt. destruct Hwt as [_ Ho].
       destruct (sepx_ok_parts _ _ Ho) as [a [Hg _]]. rewrite Hg.
       exact (flush_react_all_sep_x IShort a vs (get_short_in c o a Hg) (flags_occs c fl) st K).
-  - destruct H2 as [_ Hokx]. destruct (posx_ok_parts _ _ _ Hokx) as [Hok _].
-    destruct (pos_ok_parts _ _ _ Hok) as [a [v [vs' [Hg _]]]]. rewrite Hg.
+  - destruct H2 as [_ Hokx]. destruct (posx_ok_parts _ _ _ Hokx) as [a [Hg _]]. rewrite Hg.
     exact (flush_react_all_sep_x IIndex a vs (get_pos_in c pos a Hg) [] st K).
 Qed.
 
